@@ -34,7 +34,7 @@ def check(ctx, case):
 	report = case.get('report', [1] * n)
 	taxa = T.build_taxa(parent, thr, report)
 	tix = T.idx_of(taxa)
-	ti = lambda t: None if t is None else tix[id(t)]
+	ti = lambda t: None if t is None else tix.get(id(t), 999999)   # 999999 = an object that does not belong to this taxonomy
 	if case['kind'] == 'consensus':
 		order = case['order']
 		thr_s, = T.scale_all(thr)
